@@ -24,7 +24,7 @@ func main() {
 	}
 	os.RemoveAll(dir)
 	s := proc.New(proc.Config{Bin: bin, Dir: dir, IP: fmt.Sprintf("127.18.%d.77", w), PtNum: pt, BGOff: true,
-		Extra: map[string][]string{"data": {`write-cold-duration = "1h"`}}})
+		Extra: map[string][]string{"data.memtable": {`write-cold-duration = "1h"`, `force-snapShot-duration = "1h"`}}})
 	if err := s.Start(); err != nil {
 		fmt.Println(err)
 		os.Exit(2)
